@@ -121,6 +121,43 @@ def guard_of(p, a, b):
     return None
 
 
+def same_places(an, rep):
+    """R15.4 - the amounts a line adds up are kept to the same number of decimal places as the line itself (within one
+    form): whole-dollar lines that sum a line kept to cents do not equal the sum of the amounts the form shows, so
+    "refund + applied = overpayment" fails by the rounding difference."""
+    n = 0
+    for d in an.defs.values():
+        if d.rec.cls.name != 'FloatField':
+            continue
+        mine = d.rec.attrs.get('_places')
+        fmap = d.fr.field_map()
+        bad = []
+        for p in value_paths(d):
+            try:
+                got = lin_of(p.outcome.value)
+            except NonLinear:
+                continue
+            for t, coef in got.terms.items():
+                if t[0] != 'a' or not str(t[1]).startswith('v:'):
+                    continue
+                fpart, _, nm = str(t[1])[2:].rpartition('.')
+                if fpart != d.fr.name:
+                    continue                      # a carry from another form is rounded on arrival
+                r = fmap.get(nm)
+                if r is None or r.cls.name != 'FloatField':
+                    continue
+                n += 1
+                theirs = r.attrs.get('_places')
+                if theirs != mine and (nm, theirs) not in bad:
+                    bad.append((nm, theirs))
+        if bad:
+            rep.ob('R15.4', d.key, False,
+                   f'{d.key} is kept to {mine} decimal places but adds or subtracts line {bad[0][0]}, kept to {bad[0][1]}: the amount on the line is not the sum of the amounts '
+                   'shown on the lines it is made of, and the identities of the form (refund + applied = overpayment) fail by the rounding difference', d.where)
+    rep.ob('R15.4', 'summed-lines-share-their-places', True)
+    rep.floor('(line, summand) pairs checked for equal places', n, 500)
+
+
 def balance_identities(an, rep):
     """R15.1 for every year -> number of identities checked"""
     ids = load_data('balance_identities.json')
@@ -205,6 +242,7 @@ def check(tree, rep, tier='quick', seed=0):
     required = load_data('nonneg_required.json')
     n_nn = n_req = 0
     n_id = balance_identities(an, rep)
+    same_places(an, rep)
     for y in an.cat.years:
         # ---- R15.2
         cdefs, nn, wit, mk = sign_model(an, y)
